@@ -549,8 +549,15 @@ impl Oracle for RepeatOracle {
                         }
                     }
                 } else if state == 1 {
-                    // (iii) a READ repeated during a solicited confirm wait: whatever is sent in reaction is a copy
-                    for r in &sol_replies {
+                    // (iii) a READ repeated during a solicited confirm wait: whatever is sent in reaction is a copy (the echo of
+                    // fragment n carries the series' sequence number request + n - 1, so every solicited response counts)
+                    let all_sol: Vec<&Vec<u8>> = step
+                        .received
+                        .iter()
+                        .filter(|r| r.bytes.len() >= 2 && r.bytes[1] == refapp::FUNC_RESPONSE)
+                        .map(|r| &r.bytes)
+                        .collect();
+                    for r in &all_sol {
                         if !self.transmitted.contains(r) && violation.is_none() {
                             verdict = 5;
                             violation = Some(Violation::new(
